@@ -7,7 +7,12 @@ Space   : product-exhaustive.  Register size n; gate alphabet {X, H, Rz, CX, A2,
           to 0 through fill_in_let / through parse), all gates in a macro with qubit and angle parameters, qubits written
           through an alias of a strided alias, angles given by lets with and without override, two
           adjacent gates on disjoint qubits in a parallel block in both branch orders, a
-          `subcircuit` block, the whole prepare/measure section inside `loop 2`); the embedded
+          `subcircuit` block, the whole prepare/measure section inside `loop 2`, the section
+          re-prepared after decoy gates - `prepare_all; G1 q[0]; g_1; prepare_all; ...; measure_all`,
+          at top level and with the second prepare..measure inside `loop 2` - whose decoys the model
+          discards, and the same plain program emulated under the fixture table and under an
+          alternative native table with the same names/signatures but other matrices (X<->H,
+          Rz<->Rx, CX reversed, other generic A2/A3/G1), in both orders within one case); the embedded
           section sits beside a plainly written *witness* section (everything the embedded section
           executes except its final gate application), in both orders, so every program has two
           subcircuits.
@@ -88,16 +93,16 @@ assert all(gates.SIGS[_n][1] is not None for _n in ALT_UNITARY)
 
 
 def alt_native_gates():
-    """A fresh native table with the signatures of gates.native_gates() and the ALT matrices."""
-    kind = {"q": gates.Q, "f": gates.F}
+    """A fresh native table with exactly the names, parameter names and kinds of
+    gates.native_gates() and the ALT matrices behind them."""
     table = {}
-    for name, (kinds, fn, busy) in ALT_SIGS.items():
-        if name in gates.IDLE:
-            continue
+    for name, d in gates.native_gates(idle=False).items():
+        kinds, fn, busy = ALT_SIGS[name]
         if busy:
             table[name] = impl.BusyGateDefinition(name)
             continue
-        params = [impl.Parameter("a%d" % i, kind[k]) for i, k in enumerate(kinds)]
+        params = [impl.Parameter(p.name, p.kind) for p in d.parameters]
+        assert len(params) == len(kinds)
         table[name] = impl.GateDefinition(name, params, ideal_unitary=fn) if fn else impl.GateDefinition(name, params)
     return impl.add_idle_gates(table)
 
@@ -562,12 +567,16 @@ class C03(Check):
         "every applicable embedding (plain, loop c around one gate for c in 0..3 literal and let-valued with/without "
         "override to 0, macro with qubit+angle parameters, "
         "alias of a strided alias, let, let+override via fill_in_let / via parse, parallel block in "
-        "both branch orders, subcircuit block, whole section inside loop 2) x position of the embedded section (first/second of two "
+        "both branch orders, subcircuit block, whole section inside loop 2, re-prepare after decoy gates at top "
+        "level / into a loop, normal-then-alternative and alternative-then-normal native table) x position of the embedded section (first/second of two "
         "subcircuits); non-trivial = the reference state of the embedded section differs from e_0; "
         "distinct by program text and override"
     )
     assumptions = (
-        "gate matrices are those of mc/gates.py (generic A2/A3, asymmetric CX); one fundamental register",
+        "gate matrices are those of mc/gates.py (generic A2/A3, asymmetric CX) or, for the table embeddings, of the "
+        "alternative table built in this module; one fundamental register",
+        "gates between two prepare_all of one section are discarded (C12's reading); the state is the product of the "
+        "gates after the last prepare_all",
         "tolerance 1e-9 per amplitude and per probability",
         "parallel branches are only generated on disjoint written qubits, where every interleaving gives the same product",
         "embeddings are applied one at a time (combinations of let-override with subcircuit blocks etc. belong to C05/C09/C10)",
@@ -809,7 +818,7 @@ class C03(Check):
         if not okE:
             fails.append(("state/" + fam, "subcircuit %d (%s): required %s, emulator %s; %s" % (
                 kE, " ; ".join(_gtxt(g) for g in GE) or "no gates", _fmt(refE), _fmt(gotE), chain_txt)))
-        if not okW and (fam == "plain" and pos == 0 and not GW or which != "normal" or not self._plain_fails(n, GW)):
+        if not okW and (fam == "plain" and pos == 0 and not GW or (fam in TABLE_RUNS and okE) or (fam not in TABLE_RUNS and not self._plain_fails(n, GW))):
             # only a finding of its own when the same witness passes as a program of its own
             # (otherwise the plain case reports it)
             fails.append(("neighbour-state/" + fam, "plainly written subcircuit %d (%s) beside the embedded one: required %s, emulator %s" % (
@@ -842,7 +851,7 @@ class C03(Check):
         for clause, detail in fails:
             kind, fam = clause.split("/")
             at = case
-            if fam != "plain":
+            if fam != "plain" and fam not in TABLE_RUNS:
                 # not specific to the embedding when the plainly written program of the same executed
                 # gates fails the same way: then it is reported as the plain family's failure
                 pc = (case[0], "plain", case[2], tuple(expected_expansion(case[1], case[3])))
